@@ -602,3 +602,151 @@ def gen_C13(seed):
 
 
 GENERATORS["C13"] = gen_C13
+
+
+# ------------------------------------------------------------------------------------ event profiles
+def _osc_roots(prob, k, t0, comp, c, kind, lo, hi):
+    m = len(prob["params"]["w"])
+    j = comp % m
+    w = prob["params"]["w"][j] * k
+    q0, p0 = prob["y0"][j], prob["y0"][m + j]
+    a, b = (q0, p0) if comp < m else (p0, -q0)
+    R, phi = math.hypot(a, b), math.atan2(b, a)
+    if kind == "dstate":
+        R, phi = R * abs(w), phi - math.pi / 2
+    if abs(c) >= R:
+        return []
+    th = math.acos(c / R)
+    out = []
+    period = 2 * math.pi / abs(w)
+    for sg in (1.0, -1.0):
+        base = (phi + sg * th) / w
+        n0 = math.floor((lo - t0 - base) / period) - 1
+        for n in range(int(n0), int(n0) + int((hi - lo) / period) + 4):
+            tr = t0 + base + n * period
+            if lo < tr < hi:
+                out.append(tr)
+    return sorted(out)
+
+
+def gen_EV(seed, profile):
+    r = sub(seed, "ops")
+    fams = r.choice([["explicit_fixed"], ["explicit_fixed", "splitting"], ["explicit_adaptive"], ALL_FAMS, CHEAP_FAMS])
+    dtype = r.choice(["float64"] * 9 + ["float32", "longdouble"]) if profile == "C08" else "float64"
+    scn, direction = base_scenario(seed, profile, fams, family="osc", dtype=dtype, max_steps=16, length=rnd(r, 1.0, 3.5, 3))
+    s = scn["system"]
+    if gen_is_slow(s["method"]):
+        s["rtol"], s["atol"] = 1e-4, 1e-6
+    t0, tf = s["t0"], s["tf"]
+    L = abs(tf - t0)
+    k = s["constants"]["k"]
+    prob = scn["problem"]
+    nev = r.choice([1, 1, 2, 2, 3, 4, 6]) if profile == "C08" else r.choice([1, 2, 2, 3])
+    if profile == "C08":
+        scales = [10.0 ** r.randint(-6, 6) for _ in range(nev)]
+    elif profile == "C07":
+        scales = [r.choice([1.0, 1.0, 1e-3, 1e3, 1e-6, 1e6]) for _ in range(nev)]
+    else:
+        scales = [r.choice([1.0, 1.0, 1.0, 1e-2, 1e2]) for _ in range(nev)]
+    tp = {"C07": 0.0, "C08": 0.0, "C09": 0.45}[profile]
+    evs = gen_events(r, scn, nev, terminal_prob=tp, kinds=("state", "state", "time", "dstate"))
+    for e, sc in zip(evs, scales):
+        e["scale"] = sc
+    if profile == "C09" and not any(e["terminal"] for e in evs):
+        evs[r.randrange(len(evs))]["terminal"] = True
+    scn["events"] = evs
+    lo, hi = min(t0, tf), max(t0, tf)
+    roots = []
+    for e in evs:
+        if e["kind"] == "time":
+            roots.append((e["c"], "time"))
+        else:
+            for tr in _osc_roots(prob, k, t0, e["comp"], e["c"], e["kind"], lo, hi):
+                roots.append((tr, e["kind"]))
+    use_plan = method_family(s["method"]) in ("explicit_fixed", "splitting") and r.random() < 0.7 and dtype == "float64"
+    op = {"op": "integrate", "events": list(range(nev))}
+    if use_plan:
+        # step grid scheduled through the callback seam: boundaries on / next to roots, several roots in one step
+        base_dt = abs(s["dt"])
+        pts = set()
+        x = t0
+        while (tf - x) * direction > 1e-9:
+            pts.add(round(x, 12))
+            x = x + direction * base_dt * r.choice([1.0, 1.0, 0.5, 2.0, 3.0])
+        for (tr, kind) in roots:
+            mode = r.random()
+            if mode < 0.35:
+                pts.add(tr)                               # boundary on the (exact) root
+            elif mode < 0.5:
+                pts.add(float.fromhex((tr).hex()) + direction * 2e-15 * max(1.0, abs(tr)))   # just after
+            elif mode < 0.65:
+                pts.add(tr - direction * 2e-15 * max(1.0, abs(tr)))                           # just before
+        B = sorted((p for p in pts if (p - t0) * direction >= 0 and (tf - p) * direction > 1e-9), reverse=(direction < 0))
+        if B and B[0] != t0:
+            B = [t0] + B
+        B.append(tf)
+        # drop boundaries that are closer than 1e-13 (a zero-length step is not a legal request)
+        C = [B[0]]
+        for b in B[1:]:
+            if abs(b - C[-1]) > 1e-13 * max(1.0, abs(b)) or b == tf:
+                C.append(b)
+        B = C
+        acc = t0
+        plan = []
+        for b in B[1:]:
+            dtj = b - acc
+            plan.append(abs(dtj))
+            acc = acc + dtj
+        if len(plan) >= 2:
+            s["dt"] = plan[0] * (1 if s["dt"] > 0 else -1)
+            op["callbacks"] = ["plan"]
+            op["plan"] = plan[1:]
+    ops = [op]
+    if profile == "C07" and r.random() < 0.45 and roots:
+        # split the integration AT a root: integrate(root) then integrate()
+        tr = r.choice(roots)[0]
+        if (tr - t0) * direction > 0.05 * L and (tf - tr) * direction > 0.05 * L:
+            op1 = dict(op)
+            op1["t"] = tr if r.random() < 0.6 else round(tr, 6)
+            op1.pop("callbacks", None)
+            op1.pop("plan", None)
+            op2 = {"op": "integrate", "events": list(range(nev))}
+            ops = [op1, op2]
+    if profile == "C09":
+        x = r.random()
+        if x < 0.3:
+            op["t"] = "inf" if direction > 0 else "-inf"
+            if not any(e["terminal"] and e["kind"] == "time" for e in evs):
+                evs.append({"kind": "time", "comp": 0, "c": round(t0 + (tf - t0) * r.uniform(0.5, 0.95), 5), "scale": 1.0, "direction": 0, "terminal": True})
+                op["events"] = list(range(len(evs)))
+            op.pop("callbacks", None)
+            op.pop("plan", None)
+        # continuation after the stop
+        cont = r.random()
+        if cont < 0.5:
+            ops.append({"op": "integrate"})
+        elif cont < 0.75:
+            nonterm = [j for j, e in enumerate(evs) if not e["terminal"]]
+            o2 = {"op": "integrate"}
+            if nonterm:
+                o2["events"] = nonterm
+            ops.append(o2)
+        elif cont < 0.9:
+            ops.append({"op": "integrate"})
+            ops.append({"op": "integrate", "t": round(tf + (tf - t0) * r.uniform(0.1, 0.4), 6)})
+        rf = sub(seed, "faults")
+        if rf.random() < 0.25:
+            scn["faults"].append({"op": 0, "seam": "rhs", "at": rf.randrange(1, 200), "kind": "raise"})
+            resume = {"op": "integrate", "events": list(op["events"])}
+            if op.get("t") is not None:
+                resume["t"] = op["t"]
+            ops.insert(1, resume)
+    if profile == "C08" and r.random() < 0.3:
+        scn["knobs"]["alloc_cap"] = r.choice([1, 2, 3])
+    scn["ops"] = ops
+    return scn
+
+
+GENERATORS["C07"] = lambda seed: gen_EV(seed, "C07")
+GENERATORS["C08"] = lambda seed: gen_EV(seed, "C08")
+GENERATORS["C09"] = lambda seed: gen_EV(seed, "C09")
